@@ -81,6 +81,36 @@ import (
 //     reads, creations, removals and renames are refused at various depths,
 //     by the base's own permission checks. userStrings / userPairs name it.
 //
+// The NAME of the base directory is data too. The wrapper splices the base
+// path into strings that other code INTERPRETS - a glob pattern handed to the
+// base file system, a prefix test, a substitution, a split at separators -,
+// and a name that is an ordinary one for the file system may mean something
+// there. Lesson: whenever a wrapper builds a string for somebody else out of
+// its own configuration, the configuration must be enumerated over the
+// characters that somebody else gives a meaning to, together with a neighbour
+// that the misread string would name. The systems <fs>+name:<class>
+// (nameWorlds) put B at /top/<name> with, next to it and OUTSIDE B, a sibling
+// whose name the pattern <name> matches (or, for the plain and the malformed
+// one, extends):
+//   - star 'a*' / 'a*b', question 'who?' / 'whom', class 'pub[1]' / 'pub1',
+//     backslash 'a\b' / 'ab' (an escape in a pattern of the Linux type),
+//     open-bracket 'x[' / 'x[b' (a malformed pattern), plain 'b' / 'bb';
+//   - in every one of them B holds top/<name>/f: the text of the base path
+//     occurs AGAIN inside B (/top/b/top/b/f), so that a substitution or a
+//     search for the base path in a path of the base has two places to act on
+//     and the virtual namespace legitimately holds a path equal to the base's.
+// The alphabet is written once, for 'b' and 'bb', and spelled for the world at
+// the moment of the call (spell: the segment "b" becomes <name>, "bb" the
+// sibling's name - in operands, patterns, BaseChdir targets, Sub directories
+// and link targets alike); signatures keep the alphabet's spelling. nameStrings
+// adds what the compact first level lacks: strings of more than 2 segments that
+// spell the base path from the virtual root and patterns over them. Everything
+// that takes a pattern or returns paths (Glob, WalkDir, ReadDir, EvalSymlinks,
+// Abs, Getwd, File.Name, error paths) is judged against the twin as elsewhere.
+// Explored like the spellings of the base path (compact first level, then from
+// the states in which the base's cwd has moved - also into the sibling that
+// the pattern matches), over OrefaFS one level less.
+//
 // Levels. The operation list is static and sorted by decreasing MaxLevel, the
 // deepest level at which an operation is applied; NumOps of the system (which
 // bfs asks after replaying a history) is the length of the prefix that applies
@@ -116,6 +146,9 @@ type opT struct {
 	// User: the operands name the world of the variant user (nothing to do
 	// elsewhere).
 	User bool `json:"user,omitempty"`
+	// Names: the operands name the nested copy of the base path of the
+	// variants name:<class> (nothing to do elsewhere).
+	Names bool `json:"names,omitempty"`
 }
 
 const subPrefix = "Sub:"
@@ -267,6 +300,34 @@ var basePathSpellings = []struct{ Class, Spelling, Cwd string }{
 	{"relative-dot", "./b/", "/top"},
 }
 
+// nameWorld: B is /top/<Base>, its sibling outside B is /top/<Sibling>.
+type nameWorld struct{ Class, Base, Sibling string }
+
+// nameWorlds are the worlds of the variants name:<class>: names of the base
+// directory that are patterns (and, read as patterns, match the sibling), a
+// malformed pattern, and the ordinary name; see the comment at the top.
+var nameWorlds = []nameWorld{
+	{"plain", defaultName, siblingName},
+	{"star", "a*", "a*b"},
+	{"question", "who?", "whom"},
+	{"class", "pub[1]", "pub1"},
+	{"backslash", `a\b`, "ab"},
+	{"open-bracket", "x[", "x[b"},
+}
+
+// nestedDir is the directory of B (and of the reference's root), in the
+// alphabet's spelling, that repeats the text of the base path; it holds a file f.
+const nestedDir = basePath
+
+// nameStrings, in the alphabet's spelling: the base path spelled from the
+// virtual root (it names the nested copy), from the nested copy once more,
+// patterns that reach it, and the same with the sibling's name.
+var nameStrings = []string{
+	basePath + "/f", "top/b/f", basePath + "/x", basePath + "//f", basePath + "/../b/f", basePath + "/../bb/f",
+	basePath + basePath, basePath + basePath + "/f", siblingPath + "/f",
+	"/top/*", "/top/*/f", "/*/b", "/*/b/f", "/*/*/f", "top/*", "top/*/f", "*/b/f", "/top/b/*", "/top/bb/*",
+}
+
 // pairCore is the core of strings for the two-path calls.
 var pairCore = []string{
 	"/", "/a", "/f", "/a/f", "/b", "/a/b", "/..", "/../b", "/../secret", "/../../secret", "/../b/f",
@@ -277,6 +338,7 @@ var pairCore = []string{
 // siblingName: a directory next to B in the base whose name has B's name as a
 // strict string prefix.
 const (
+	defaultName = "b"
 	siblingName = "bb"
 	siblingPath = "/top/" + siblingName
 	siblingSub  = siblingPath + "/k"
@@ -297,14 +359,16 @@ var baseChdirTargets = []string{basePath + "/a", basePath, siblingPath, siblingS
 // baseCwdClass: where a cleaned directory of the base lies with respect to B.
 func baseCwdClass(d string) string {
 	switch {
-	case d == basePath:
+	case d == wBase:
 		return "B"
-	case strings.HasPrefix(d, basePath+"/"):
+	case strings.HasPrefix(d, wBase+"/"):
 		return "in-B"
-	case strings.HasPrefix(d, basePath):
+	case strings.HasPrefix(d, wBase):
 		return "prefix-sibling"
-	case d == "/" || strings.HasPrefix(basePath, d+"/"):
+	case d == "/" || strings.HasPrefix(wBase, d+"/"):
 		return "ancestor"
+	case d == wSibling || strings.HasPrefix(d, wSibling+"/"):
+		return "pattern-sibling"
 	}
 
 	return "unrelated"
@@ -497,6 +561,15 @@ func buildOps(tier string) []opT {
 	for _, pr := range userPairs {
 		for _, c := range []string{"Rename", "Link", "Symlink"} {
 			ops = append(ops, opT{Call: c, A: pr[0], B: pr[1], Two: true, MaxLevel: 1, User: true})
+		}
+	}
+
+	// the worlds of the variants name:<class>
+	for _, p := range nameStrings {
+		lvl := levelOf(segs, pathStr{p, segCount(p)})
+
+		for _, c := range singleCalls {
+			ops = append(ops, opT{Call: c, A: p, MaxLevel: lvl, Names: true})
 		}
 	}
 
